@@ -139,8 +139,86 @@ pub fn generate(tier: &str, rng: &mut Rng) -> Vec<String> {
         "e2n L XS cc",
         "e2n E X c",
         "e2n E SFXS dccc",
+        // calls that carry a deadline. A zero effective deadline on the call whose poll_ready
+        // ran a failing attempt: that call takes the parked connect error, the next one makes a
+        // fresh attempt (seed C14c: a fail-fast check in GrpcTimeout left the error parked)
+        "e2e L FS zc",
+        "e2e L FS zcc",
+        "e2e E SFS dzcc",
+        "e2e L FFS zzc",
+        "e2e L S zc",
+        "e2e E SS zdzc",
+        "e2e L S ncslc",
+        "e2n L FS zc",
+        "e2d L z FS cc",
+        "e2d E z SFS cdcc",
+        "e2d L z S ccc",
+        "e2d L n FS cc",
+        "e2d E s SFS cdcc",
+        "e2d L l FXTS zczc",
+        // the peer drops the connection while a call is in flight (unary: request delivered, no
+        // response yet; server-streaming: in the middle of the response body): the call ends
+        // with an error of its own, the next call reconnects, nothing is replayed
+        "e2e L SS icc",
+        "e2e L SS jcc",
+        "e2e E SS icc",
+        "e2e E SFS icc",
+        "e2e E SFS jcc",
+        "e2e L FS icc",
+        "e2e L SSS ijc",
+        "e2e L SSSS ijij",
+        "e2n E SXS icc",
+        "e2d L s SS icc",
     ] {
         out.push(c.to_string());
+    }
+
+    // ---- long histories: counters must not matter (mutant: give up after 10 consecutive
+    // failures). k failed attempts in a row, then the peer is back; fail/die alternation ----
+    let longs: &[usize] = if thorough { &[11, 12, 40, 200, 1000] } else { &[12, 40, 200] };
+    for &k in longs {
+        for m in modes {
+            // unit: every failed attempt is `o` (connector ready) `e` (attempt fails); lazy:
+            // each failure is parked and handed to one call; eager: the first one fails the build
+            let env = format!("{}ooo", "oe".repeat(k));
+            let ops = "rc".repeat(k + 2);
+            out.push(format!("unit {} {} {}", m, env, ops));
+            out.push(format!("sess {} {} {}", m, env, k + 2));
+            // an established connection first, then k failed reconnects, then the peer is back
+            let env = format!("ooo{}{}ooo", "e", "oe".repeat(k));
+            out.push(format!("unit {} {} {}", m, env, "rc".repeat(k + 3)));
+            out.push(format!("sess {} {} {}", m, env, k + 3));
+            if k <= 200 {
+                // e2e: k refused attempts, then served
+                let head = if m == "E" { "S" } else { "" };
+                let drop = if m == "E" { "d" } else { "" };
+                out.push(format!("e2e {} {}{}S {}{}", m, head, "F".repeat(k), drop, "c".repeat(k + 2)));
+                out.push(format!("e2n {} {}{}S {}{}", m, head, "F".repeat(k), drop, "c".repeat(k + 2)));
+                // every kind of failure, delayed ones included
+                let mix: String = "FXTfxt".chars().cycle().take(k).collect();
+                out.push(format!("e2e {} {}{}S {}{}", m, head, mix, drop, "c".repeat(k + 2)));
+            }
+        }
+    }
+    // alternating fail/die: connect, serve, die, failed reconnect, connect, … for n rounds
+    let rounds: &[usize] = if thorough { &[12, 100, 300] } else { &[12, 100] };
+    for &n in rounds {
+        for m in modes {
+            let outs = "SF".repeat(n);
+            let ops = format!("c{}", "dcc".repeat(n));
+            out.push(format!("e2e {} {}S {}", m, outs, ops));
+            out.push(format!("e2n {} {}S {}", m, outs, ops));
+            // the same at the state-machine level: ooo (connect+ready) then per round: e (dead)
+            // o e (reconnect fails) / o o o (reconnect works)
+            let env = format!("ooo{}", "eoeooo".repeat(n));
+            out.push(format!("unit {} {} {}", m, env, "rc".repeat(2 * n + 1)));
+            out.push(format!("sess {} {} {}", m, env, 2 * n + 1));
+            // in-flight deaths in a row
+            if n <= 100 {
+                out.push(format!("e2e {} {} {}", m, "S".repeat(n + 2), "i".repeat(n) + "c"));
+                out.push(format!("e2e {} {} {}", m, "SF".repeat(n) + "S", "ic".repeat(n) + "c"));
+            }
+        }
     }
 
     // ---- unit: exhaustive small scope ----
@@ -272,6 +350,70 @@ pub fn generate(tier: &str, rng: &mut Rng) -> Vec<String> {
             let alpha: &[char] = if ops.len() <= ops_max - 1 { &['F', 'S', 'X'] } else { &['F', 'S'] };
             for outs in all_strings(alpha, attempts) {
                 out.push(format!("e2n {} {} {}", m, tok(&outs), tok(&ops)));
+            }
+        }
+    }
+    // calls with deadlines and calls that die in flight, at every script position: ops over
+    // {c, z, d, i} (and j, n, s, l in random scripts below) × outcomes over {F,S}
+    let ops_max = if thorough { 6 } else { 5 };
+    for m in modes {
+        for ops in all_strings_upto(&['c', 'z', 'd', 'i'], ops_max) {
+            if !(ops.contains('z') || ops.contains('i')) {
+                continue;
+            }
+            let calls = ops.chars().filter(|c| *c != 'd').count();
+            let attempts = calls + if m == "E" { 1 } else { 0 };
+            if !thorough && ops.len() == ops_max && attempts > 4 {
+                // keep quick affordable: longest scripts only with the three standard outcome lists
+                let all_s: String = "S".repeat(attempts);
+                let alt: String = (0..attempts).map(|i| if i % 2 == 0 { 'F' } else { 'S' }).collect();
+                let alt2: String = (0..attempts).map(|i| if i % 2 == 0 { 'S' } else { 'F' }).collect();
+                for outs in [all_s, alt, alt2] {
+                    out.push(format!("e2e {} {} {}", m, tok(&outs), tok(&ops)));
+                }
+                continue;
+            }
+            for outs in all_strings(&['F', 'S'], attempts) {
+                out.push(format!("e2e {} {} {}", m, tok(&outs), tok(&ops)));
+            }
+        }
+    }
+    // Endpoint::timeout (channel-wide deadline) × per-call deadlines
+    let ops_max = if thorough { 5 } else { 4 };
+    for m in modes {
+        for et in ["z", "n", "s", "l"] {
+            for ops in all_strings_upto(&['c', 'z', 'd'], ops_max) {
+                if ops.is_empty() {
+                    continue;
+                }
+                let calls = ops.chars().filter(|c| *c != 'd').count();
+                let attempts = calls + if m == "E" { 1 } else { 0 };
+                for outs in all_strings(&['F', 'S'], attempts) {
+                    out.push(format!("e2d {} {} {} {}", m, et, tok(&outs), tok(&ops)));
+                }
+            }
+        }
+    }
+    let n = if thorough { 3000 } else { 300 };
+    for _ in 0..n {
+        let m = *rng.pick(&modes);
+        let olen = rng.range(1, if thorough { 14 } else { 9 }) as usize;
+        let ops = rand_string(
+            rng,
+            &[('c', 4), ('z', 3), ('n', 1), ('s', 1), ('l', 1), ('i', 2), ('j', 2), ('d', 2), ('g', 1)],
+            olen,
+        );
+        let alen = rng.range(0, olen as u64 + 2) as usize;
+        let outs = match rng.below(2) {
+            0 => rand_string(rng, &[('F', 3), ('S', 4), ('f', 1), ('s', 2)], alen),
+            _ => rand_string(rng, &[('F', 2), ('S', 4), ('X', 1), ('T', 1), ('s', 1), ('x', 1)], alen),
+        };
+        match rng.below(3) {
+            0 => out.push(format!("e2e {} {} {}", m, tok(&outs), tok(&ops))),
+            1 if !(outs.contains('T') || outs.contains('t')) => out.push(format!("e2n {} {} {}", m, tok(&outs), tok(&ops))),
+            _ => {
+                let et = *rng.pick(&["-", "n", "s", "l"]);
+                out.push(format!("e2d {} {} {} {}", m, et, tok(&outs), tok(&ops)));
             }
         }
     }
@@ -638,10 +780,46 @@ mod raw {
 #[derive(Clone)]
 struct WhoAmI {
     id: usize,
+    /// tells the script that a `Hold` request has reached the handler of connection `id`
+    arrived: tokio::sync::mpsc::UnboundedSender<usize>,
 }
 
 impl tonic::server::NamedService for WhoAmI {
     const NAME: &'static str = "verif.WhoAmI";
+}
+
+struct UnaryFn<F>(F);
+impl<F, Fut> tonic::server::UnaryService<Vec<u8>> for UnaryFn<F>
+where
+    F: FnMut(tonic::Request<Vec<u8>>) -> Fut,
+    Fut: Future<Output = Result<tonic::Response<Vec<u8>>, tonic::Status>>,
+{
+    type Response = Vec<u8>;
+    type Future = Fut;
+    fn call(&mut self, request: tonic::Request<Vec<u8>>) -> Fut {
+        (self.0)(request)
+    }
+}
+
+type ItemStream = Pin<Box<dyn futures_core::Stream<Item = Result<Vec<u8>, tonic::Status>> + Send>>;
+struct StreamSvc {
+    id: usize,
+}
+impl tonic::server::ServerStreamingService<Vec<u8>> for StreamSvc {
+    type Response = Vec<u8>;
+    type ResponseStream = ItemStream;
+    type Future = Pin<Box<dyn Future<Output = Result<tonic::Response<ItemStream>, tonic::Status>> + Send>>;
+    fn call(&mut self, request: tonic::Request<Vec<u8>>) -> Self::Future {
+        let id = self.id;
+        Box::pin(async move {
+            use tokio_stream::StreamExt;
+            let mut v = request.into_inner();
+            v.extend_from_slice(format!("@{}", id).as_bytes());
+            let st: ItemStream =
+                Box::pin(tokio_stream::once(Ok::<_, tonic::Status>(v)).chain(tokio_stream::pending()));
+            Ok(tonic::Response::new(st))
+        })
+    }
 }
 
 impl Service<http::Request<tonic::body::Body>> for WhoAmI {
@@ -653,30 +831,43 @@ impl Service<http::Request<tonic::body::Body>> for WhoAmI {
     }
     fn call(&mut self, req: http::Request<tonic::body::Body>) -> Self::Future {
         let id = self.id;
+        let arrived = self.arrived.clone();
         Box::pin(async move {
             let mut grpc = tonic::server::Grpc::new(raw::RawCodec);
-            struct H<F>(F);
-            impl<F, Fut> tonic::server::UnaryService<Vec<u8>> for H<F>
-            where
-                F: FnMut(tonic::Request<Vec<u8>>) -> Fut,
-                Fut: Future<Output = Result<tonic::Response<Vec<u8>>, tonic::Status>>,
-            {
-                type Response = Vec<u8>;
-                type Future = Fut;
-                fn call(&mut self, request: tonic::Request<Vec<u8>>) -> Fut {
-                    (self.0)(request)
+            let res = match req.uri().path() {
+                // answers "<request>@<connection id>"
+                "/verif.WhoAmI/Who" => {
+                    grpc.unary(
+                        UnaryFn(move |r: tonic::Request<Vec<u8>>| async move {
+                            let mut v = r.into_inner();
+                            v.extend_from_slice(format!("@{}", id).as_bytes());
+                            Ok::<_, tonic::Status>(tonic::Response::new(v))
+                        }),
+                        req,
+                    )
+                    .await
                 }
-            }
-            let res = grpc
-                .unary(
-                    H(move |r: tonic::Request<Vec<u8>>| async move {
-                        let mut v = r.into_inner();
-                        v.extend_from_slice(format!("@{}", id).as_bytes());
-                        Ok::<_, tonic::Status>(tonic::Response::new(v))
-                    }),
-                    req,
-                )
-                .await;
+                // tells the script it has arrived and never answers
+                "/verif.WhoAmI/Hold" => {
+                    grpc.unary(
+                        UnaryFn(move |_r: tonic::Request<Vec<u8>>| {
+                            let arrived = arrived.clone();
+                            async move {
+                                let _ = arrived.send(id);
+                                std::future::pending::<()>().await;
+                                Err::<tonic::Response<Vec<u8>>, _>(tonic::Status::internal("unreachable"))
+                            }
+                        }),
+                        req,
+                    )
+                    .await
+                }
+                // one message "<request>@<connection id>", then silence
+                "/verif.WhoAmI/Stream" => {
+                    grpc.server_streaming(StreamSvc { id }, req).await
+                }
+                _ => tonic::Status::unimplemented("no such method").into_http(),
+            };
             Ok(res)
         })
     }
@@ -689,6 +880,8 @@ struct World {
     cables: Vec<(usize, tokio::task::JoinHandle<()>)>,
     /// graceful-shutdown triggers of the servers behind those connections
     shutdowns: Vec<tokio::sync::oneshot::Sender<()>>,
+    /// handed to every server: `Hold` requests announce themselves here
+    arrived: tokio::sync::mpsc::UnboundedSender<usize>,
 }
 
 #[derive(Clone)]
@@ -719,13 +912,14 @@ impl Service<http::Uri> for ScriptConnector {
                     let (mut cable_b, server_io) = tokio::io::duplex(16 * 1024);
                     // the peer: a real tonic server serving exactly this connection
                     let (stop_tx, stop_rx) = tokio::sync::oneshot::channel::<()>();
+                    let arrived = world.lock().unwrap().arrived.clone();
                     tokio::spawn(async move {
                         use tokio_stream::StreamExt;
                         // one connection, then nothing more (the listener stays open)
                         let incoming = tokio_stream::once(Ok::<_, std::io::Error>(server_io))
                             .chain(tokio_stream::pending());
                         let _ = tonic::transport::Server::builder()
-                            .add_service(WhoAmI { id })
+                            .add_service(WhoAmI { id, arrived })
                             .serve_with_incoming_shutdown(incoming, async move {
                                 let _ = stop_rx.await;
                             })
@@ -772,14 +966,49 @@ fn attempt_in(text: &str) -> String {
 
 const QUIESCE: Duration = Duration::from_millis(50);
 
-fn run_e2e(lazy: bool, outcomes: &str, ops: &str, with_timeout: bool) -> String {
+/// The deadline a script letter stands for.
+fn deadline_of(c: char) -> Option<Duration> {
+    match c {
+        'z' => Some(Duration::ZERO),
+        'n' => Some(Duration::from_nanos(1)),
+        's' => Some(Duration::from_millis(20)),
+        'l' => Some(Duration::from_secs(3600)),
+        _ => None,
+    }
+}
+
+/// How one finished call is reported.
+fn call_tok(r: Result<Result<String, (tonic::Status, String)>, ()>, a: usize) -> (String, bool) {
+    match r {
+        Err(()) => (format!("c:hang:a{}", a), true),
+        Ok(Ok(body)) => match body.strip_prefix("hi@") {
+            Some(id) => (format!("c:resp{}:a{}", id, a), false),
+            None => (format!("c:garbled:a{}", a), false),
+        },
+        Ok(Err((st, dbg))) => {
+            if std::env::var("C14_DEBUG").is_ok() {
+                eprintln!("{}", dbg);
+            }
+            if st.code() == tonic::Code::Cancelled && st.message() == "Timeout expired" {
+                // the call's own deadline (GrpcTimeout), not a connection failure
+                (format!("c:exp:a{}", a), false)
+            } else {
+                (format!("c:err{}:f{}:a{}", st.code() as i32, attempt_in(&dbg), a), false)
+            }
+        }
+    }
+}
+
+fn run_e2e(lazy: bool, outcomes: &str, ops: &str, with_timeout: bool, endpoint_timeout: Option<Duration>) -> String {
     let rt = paused_rt();
     rt.block_on(async move {
+        let (arrived_tx, mut arrived_rx) = tokio::sync::mpsc::unbounded_channel::<usize>();
         let world = Arc::new(Mutex::new(World {
             outcomes: outcomes.chars().filter(|c| *c != '-').collect(),
             attempts: 0,
             cables: Vec::new(),
             shutdowns: Vec::new(),
+            arrived: arrived_tx,
         }));
         let connector = ScriptConnector(world.clone());
         let endpoint = tonic::transport::Endpoint::from_static("http://verif.invalid:50051");
@@ -789,6 +1018,11 @@ fn run_e2e(lazy: bool, outcomes: &str, ops: &str, with_timeout: bool) -> String 
             endpoint.connect_timeout(Duration::from_secs(3))
         } else {
             endpoint
+        };
+        // Endpoint::timeout: the channel-wide deadline GrpcTimeout applies to every call
+        let endpoint = match endpoint_timeout {
+            Some(d) => endpoint.timeout(d),
+            None => endpoint,
         };
         let mut out: Vec<String> = Vec::new();
         let attempts = |w: &Arc<Mutex<World>>| w.lock().unwrap().attempts;
@@ -818,6 +1052,23 @@ fn run_e2e(lazy: bool, outcomes: &str, ops: &str, with_timeout: bool) -> String 
             }
         };
         let mut client = tonic::client::Grpc::new(channel);
+        let cut_cables = |world: &Arc<Mutex<World>>| {
+            let cables: Vec<_> = world.lock().unwrap().cables.drain(..).collect();
+            async move {
+                for (_, c) in cables {
+                    c.abort();
+                    let _ = c.await;
+                }
+            }
+        };
+        let ready_err = |e: tonic::transport::Error| {
+            let dbg = format!("{:?}", e);
+            (tonic::Status::from_error(Box::new(e)), dbg)
+        };
+        let status_err = |st: tonic::Status| {
+            let dbg = format!("{:?} {}", st, source_chain(&st));
+            (st, dbg)
+        };
         for op in ops.chars().filter(|c| *c != '-') {
             match op {
                 'g' => {
@@ -831,47 +1082,146 @@ fn run_e2e(lazy: bool, outcomes: &str, ops: &str, with_timeout: bool) -> String 
                 }
                 'd' => {
                     // the peer drops every established connection
-                    let cables: Vec<_> = world.lock().unwrap().cables.drain(..).collect();
-                    for (_, c) in cables {
-                        c.abort();
-                        let _ = c.await;
-                    }
+                    cut_cables(&world).await;
                     tokio::time::sleep(QUIESCE).await;
                     out.push("d".into());
                 }
-                _ => {
+                'i' => {
+                    // a unary call that is in flight (request delivered to the handler, no
+                    // response) when the peer drops the connection
+                    while arrived_rx.try_recv().is_ok() {}
                     let fut = async {
-                        client.ready().await.map_err(|e| {
-                            let dbg = format!("{:?}", e);
-                            (tonic::Status::from_error(Box::new(e)), dbg)
-                        })?;
-                        let path = http::uri::PathAndQuery::from_static("/verif.WhoAmI/Who");
+                        client.ready().await.map_err(ready_err)?;
+                        let path = http::uri::PathAndQuery::from_static("/verif.WhoAmI/Hold");
                         client
                             .unary::<Vec<u8>, Vec<u8>, _>(tonic::Request::new(b"hi".to_vec()), path, raw::RawCodec)
                             .await
-                            .map_err(|st| {
-                                let dbg = format!("{:?} {}", st, source_chain(&st));
-                                (st, dbg)
-                            })
+                            .map(|resp| String::from_utf8_lossy(resp.get_ref()).to_string())
+                            .map_err(status_err)
                     };
-                    let r = tokio::time::timeout(WATCHDOG, fut).await;
-                    tokio::time::sleep(QUIESCE).await;
-                    let a = attempts(&world);
-                    match r {
-                        Err(_) => {
-                            out.push(format!("c:hang:a{}", a));
-                            break;
+                    tokio::pin!(fut);
+                    let first = tokio::time::timeout(WATCHDOG, async {
+                        tokio::select! {
+                            biased;
+                            r = &mut fut => Ok(r),
+                            id = arrived_rx.recv() => Err(id),
                         }
-                        Ok(Ok(resp)) => {
-                            let body = String::from_utf8_lossy(resp.get_ref()).to_string();
-                            match body.strip_prefix("hi@") {
-                                Some(id) => out.push(format!("c:resp{}:a{}", id, a)),
-                                None => out.push(format!("c:garbled:a{}", a)),
+                    })
+                    .await;
+                    let (tok, stop) = match first {
+                        Err(_) => (format!("c:hang:a{}", attempts(&world)), true),
+                        // the call ended before it reached a handler (no connection could be made)
+                        Ok(Ok(r)) => {
+                            tokio::time::sleep(QUIESCE).await;
+                            call_tok(Ok(r), attempts(&world))
+                        }
+                        Ok(Err(id)) => {
+                            cut_cables(&world).await;
+                            // must resolve by itself, in bounded (virtual) time
+                            let r = tokio::time::timeout(WATCHDOG, &mut fut).await;
+                            tokio::time::sleep(QUIESCE).await;
+                            let a = attempts(&world);
+                            match r {
+                                Err(_) => (format!("c:hang:a{}", a), true),
+                                Ok(Ok(_)) => (format!("c:garbled:a{}", a), false),
+                                Ok(Err((st, dbg))) => {
+                                    if std::env::var("C14_DEBUG").is_ok() {
+                                        eprintln!("in-flight unary: code {:?}: {}", st.code(), dbg);
+                                    }
+                                    (format!("c:lost{}:a{}", id.unwrap_or(0), a), false)
+                                }
                             }
                         }
-                        Ok(Err((st, dbg))) => {
-                            if std::env::var("C14_DEBUG").is_ok() { eprintln!("{}", dbg); } out.push(format!("c:err{}:f{}:a{}", st.code() as i32, attempt_in(&dbg), a));
+                    };
+                    out.push(tok);
+                    if stop {
+                        break;
+                    }
+                }
+                'j' => {
+                    // a server-streaming call: first message received, then the peer drops the
+                    // connection in the middle of the response body
+                    let fut = async {
+                        client.ready().await.map_err(ready_err)?;
+                        let path = http::uri::PathAndQuery::from_static("/verif.WhoAmI/Stream");
+                        client
+                            .server_streaming::<Vec<u8>, Vec<u8>, _>(tonic::Request::new(b"hi".to_vec()), path, raw::RawCodec)
+                            .await
+                            .map_err(status_err)
+                    };
+                    let started = tokio::time::timeout(WATCHDOG, fut).await;
+                    let (tok, stop) = match started {
+                        Err(_) => (format!("c:hang:a{}", attempts(&world)), true),
+                        Ok(Err(e)) => {
+                            tokio::time::sleep(QUIESCE).await;
+                            call_tok(Ok(Err(e)), attempts(&world))
                         }
+                        Ok(Ok(resp)) => {
+                            let mut stream = resp.into_inner();
+                            match tokio::time::timeout(WATCHDOG, stream.message()).await {
+                                Err(_) => (format!("c:hang:a{}", attempts(&world)), true),
+                                Ok(Ok(Some(first))) => {
+                                    let body = String::from_utf8_lossy(&first).to_string();
+                                    let id = body.strip_prefix("hi@").and_then(|s| s.parse::<usize>().ok());
+                                    cut_cables(&world).await;
+                                    let r = tokio::time::timeout(WATCHDOG, stream.message()).await;
+                                    tokio::time::sleep(QUIESCE).await;
+                                    let a = attempts(&world);
+                                    match (r, id) {
+                                        (Err(_), _) => (format!("c:hang:a{}", a), true),
+                                        // a clean end of stream or a further message: the
+                                        // truncation went unnoticed
+                                        (Ok(Ok(_)), _) | (_, None) => (format!("c:garbled:a{}", a), false),
+                                        (Ok(Err(st)), Some(id)) => {
+                                            if std::env::var("C14_DEBUG").is_ok() {
+                                                eprintln!("in-flight stream: code {:?}: {:?}", st.code(), st);
+                                            }
+                                            (format!("c:lost{}:a{}", id, a), false)
+                                        }
+                                    }
+                                }
+                                Ok(Ok(None)) => (format!("c:garbled:a{}", attempts(&world)), false),
+                                Ok(Err(st)) => {
+                                    tokio::time::sleep(QUIESCE).await;
+                                    call_tok(Ok(Err(status_err(st))), attempts(&world))
+                                }
+                            }
+                        }
+                    };
+                    out.push(tok);
+                    if stop {
+                        break;
+                    }
+                }
+                _ => {
+                    // an ordinary unary call, possibly with a per-call deadline
+                    let fut = async {
+                        client.ready().await.map_err(ready_err)?;
+                        let path = http::uri::PathAndQuery::from_static("/verif.WhoAmI/Who");
+                        let mut req = tonic::Request::new(b"hi".to_vec());
+                        if let Some(d) = deadline_of(op) {
+                            req.set_timeout(d);
+                        }
+                        client
+                            .unary::<Vec<u8>, Vec<u8>, _>(req, path, raw::RawCodec)
+                            .await
+                            .map(|resp| String::from_utf8_lossy(resp.get_ref()).to_string())
+                            .map_err(status_err)
+                    };
+                    let r = tokio::time::timeout(WATCHDOG, fut).await.map_err(|_| ());
+                    tokio::time::sleep(QUIESCE).await;
+                    let (mut tok, stop) = call_tok(r, attempts(&world));
+                    // A call whose effective deadline is zero races its own timers (the
+                    // client's and the peer's GrpcTimeout) against the answer; which of them
+                    // wins is not the property's business: "answered" and "cut off by its
+                    // deadline" both mean the call got as far as a live connection.
+                    let zero = deadline_of(op) == Some(Duration::ZERO) || endpoint_timeout == Some(Duration::ZERO);
+                    if zero && tok.starts_with("c:resp") {
+                        tok = format!("c:exp:a{}", attempts(&world));
+                    }
+                    out.push(tok);
+                    if stop {
+                        break;
                     }
                 }
             }
@@ -1163,8 +1513,11 @@ pub fn execute(case: &str) -> String {
             Ok(n) => run_sess(*m == "L", env, n),
             Err(_) => "bad-case".into(),
         },
-        ["e2e", m, outs, ops] if *m == "L" || *m == "E" => run_e2e(*m == "L", outs, ops, true),
-        ["e2n", m, outs, ops] if *m == "L" || *m == "E" => run_e2e(*m == "L", outs, ops, false),
+        ["e2e", m, outs, ops] if *m == "L" || *m == "E" => run_e2e(*m == "L", outs, ops, true, None),
+        ["e2n", m, outs, ops] if *m == "L" || *m == "E" => run_e2e(*m == "L", outs, ops, false, None),
+        ["e2d", m, et, outs, ops] if (*m == "L" || *m == "E") && ["-", "z", "n", "s", "l"].contains(et) => {
+            run_e2e(*m == "L", outs, ops, true, et.chars().next().and_then(deadline_of))
+        }
         ["cls", chain] => run_cls(chain),
         ["e2x", m, t, cause] if (*m == "L" || *m == "E") && (*t == "t" || *t == "n") => run_e2x(*m == "L", *t == "t", cause),
         _ => "bad-case".into(),
